@@ -29,6 +29,9 @@ CLAIM = dict(
         '[C12_tt_eq_dense_get (any ring), _int, _gets, _sum] the TT and the dense routines agree on full(Y). '
         '[C12_in_box_not_skipped, C12_fill_value, C12_fill_value_R, C12_fill_value_full(_R)] points of the box are evaluated, '
         'points that leave it by more than the tolerance in one coordinate get z. '
+        '[C12_skip_out_resolution, C12_fill_value_default_box_R] the optional arguments of func_get (a, b, skip_out left at None) '
+        'are modelled (func_get_opt): an explicit skip_out is always honoured, without a flag points are skipped iff both bounds '
+        'were given, defaults are the box [-1,1]^d; with the default box and skip_out=True outside points get z. '
         '[C12_sum_full_rejects] an asymmetric box makes func_sum_full return ValueError, [C12_sum_full_accepts_symmetric] '
         'every symmetric box is accepted; [C12_func_int_needs_two] n_k<2 is an error (scipy DCT-I). '
         '[C12_func_sum_spec] func_sum = prod (b_k-a_k)/2 * sum_m A[m] prod_k w_{m_k} (any ring, also the sine weights); '
@@ -69,7 +72,13 @@ CLAIM = dict(
           'across 2-3 interleaved calls of every routine (result = result on fresh copies bit for bit, arguments '
           'byte-identical afterwards); values scaled by 2^+-200 .. 2^+-900 (must commute bit for bit), boxes +-2^+-300 and '
           '[2^30, 2^30+2^-20], n_k = 2 everywhere, d = 1, a single point, sine grid m = 1, basis with as many functions as '
-          'points.  Kept OUT (not covered by the property text, quantifier n_k >= 2 / documented types): the Chebyshev grid '
+          'points; option interactions (stream option_interactions, search options: every combination of explicit / omitted '
+          'a, b, z and skip_out omitted / None / True / False for func_get, batch and single point; z, skip_out for func_get_full; '
+          'm, kind for func_gets / func_gets_full; points inside, on the boundary, outside the effective box) and general boxes '
+          '(stream general_boxes, search gboxes: decimal non-dyadic asymmetric bounds such as [0.1,0.7], negative, positive, '
+          'symmetric, tiny / huge width and random double bounds for EVERY routine taking a, b incl. func_gets_full(A, a, b, m) '
+          'and the same-grid inversion; points exactly on faces, corners and on the grid nodes teneva.ind_to_poi computes).  '
+          'Kept OUT (not covered by the property text, quantifier n_k >= 2 / documented types): the Chebyshev grid '
           'with m = 1 (its only node is cos(pi*0/0) = NaN in ind_to_poi), NumPy integer scalars as bounds (TypeError in '
           'grid_prep_opt), list / 1-D points for func_get_full (ndarray [samples, d] documented), value scalings whose '
           'results are subnormal (2^-1000).  The search (independent of the model) checks every clause of the property '
@@ -112,6 +121,7 @@ Definition show_t (ns : list nat) (A : tens Qc) : list (Z * Z) := map sq (tflat 
 Definition show_m (A : mat Qc) : list (Z * Z) := nz (mr A) :: nz (mc A) :: map sq (concat (md A)).
 Definition f_int Y := show_rtt (func_int OQc cs_Qc snq Y Cheb).
 Definition f_get X A a b z s := show_l (func_get OQc tolq X A a b z s).
+Definition f_get_opt X A a b z s := show_l (func_get_opt OQc tolq X A a b z s).
 Definition f_gets A ms := show_tt (func_gets_opt OQc cs_Qc snq A ms Cheb).
 Definition f_sum A a b := show_l [func_sum OQc A a b Cheb].
 Definition f_int_full ns Y := show_t ns (func_int_full OQc cs_Qc ns Y).
@@ -372,6 +382,8 @@ def correspondence(R, ctx):
     bad += corr_qc(R, tn, rng, th)
     bad += corr_forms(R, tn, rng, th)
     bad += corr_edges(R, tn, rng, th)
+    bad += corr_options(R, tn, rng, th)
+    bad += corr_boxes(R, tn, rng, th)
     bad += corr_histories(R, tn, rng, th)
     bad += corr_scales(R, tn, rng, th)
     bad += corr_float(R, tn, rng, th)
@@ -667,6 +679,197 @@ def corr_edges(R, tn, rng, th):
 # ---------------------------------------------------------------------------------------------
 # histories (argument objects reused across calls) and scales / degenerate shapes (Qc instance, exact)
 # ---------------------------------------------------------------------------------------------
+# ---------------------------------------------------------------------------------------------
+# option interactions and general (non-dyadic, asymmetric, negative, tiny / huge) boxes -- Qc instance, the model decides
+# ---------------------------------------------------------------------------------------------
+OMIT = object()
+
+
+def opt_points(rng, a, b, n_in=2):
+    """dyadic points strictly inside, on the boundary and outside the (effective) box [a, b]"""
+    d = len(a)
+    P = [[ak + (bk - ak) * Fr(rng.randint(1, 7), 8) for ak, bk in zip(a, b)] for _ in range(n_in)]
+    x = [ak + (bk - ak) * Fr(rng.randint(1, 7), 8) for ak, bk in zip(a, b)]
+    k = rng.randrange(d)
+    x[k] = rng.choice([a[k], b[k]])
+    P.append(x)
+    for _ in range(2):
+        x = [ak + (bk - ak) * Fr(rng.randint(1, 7), 8) for ak, bk in zip(a, b)]
+        k = rng.randrange(d)
+        x[k] = rng.choice([a[k] - Fr(rng.randint(1, 6), 4), b[k] + Fr(rng.randint(1, 6), 4)])
+        P.append(x)
+    return P
+
+
+def corr_options(R, tn, rng, th):
+    """every combination of explicit / omitted a, b, z, skip_out (omitted, None, True, False) for func_get (batch and
+    single point), z / skip_out for func_get_full, m / kind for func_gets, m for func_gets_full; points inside, on the
+    boundary and outside the effective box.  Model: func_get_opt (option resolution) / explicit arguments."""
+    items = []
+    dist = dict(kinds={}, combos=0, note='Qc instance; integer cores; dyadic boxes and points; effective box = given '
+                'bound or the default -1 / +1; the model resolves the options (Model/Func.v func_get_opt)')
+
+    def add(kind, coq, thunk, inp, rk='array'):
+        dist['kinds'][kind] = dist['kinds'].get(kind, 0) + 1
+        items.append(dict(coq=coq, impl=impl_flat(thunk, rk), input=[kind] + inp))
+
+    for rep in range(3 if th else 1):
+        d = rng.choice([2, 3]) if rep else 2
+        ns = [rng.choice([2, 3, 4]) for _ in range(d)]
+        Aq = rand_tt(rng, ns, 2)
+        Af = tt_float(Aq)
+        Ad = np.array(dense_of(Aq).tolist(), dtype=float).reshape(ns)
+        tl = tens_lit(dense_of(Aq), C.qlit)
+        desc = [ns, [G.tolist() for G in Aq]]
+        ax = [Fr(-rng.randint(1, 6), 2) for _ in range(d)]          # explicit bounds, a <= -1/2 < 1/2 <= b
+        bx = [Fr(rng.randint(1, 6), 2) for _ in range(d)]
+        zx = Fr(rng.choice([-7, 5, 9]), 2)
+        for a_given in (False, True):
+            for b_given in (False, True):
+                ae = ax if a_given else [Fr(-1)] * d
+                be = bx if b_given else [Fr(1)] * d
+                P = opt_points(rng, ae, be)
+                for z_given in (False, True):
+                    for sk in (OMIT, None, True, False):
+                        for single in (False, True):
+                            if single and (z_given, sk) not in ((True, True), (False, OMIT), (True, False)):
+                                continue
+                            dist['combos'] += 1
+                            pts = [P[rng.randrange(len(P))]] if single else P
+                            kw = {}
+                            if a_given:
+                                kw['a'] = fl(ax)
+                            if b_given:
+                                kw['b'] = fl(bx)
+                            if z_given:
+                                kw['z'] = float(zx)
+                            if sk is not OMIT:
+                                kw['skip_out'] = sk
+                            Xarg = fl(pts[0]) if single else np.array([fl(x) for x in pts])
+                            qa = f'(Some {qlist(ax)})' if a_given else 'None'
+                            qb = f'(Some {qlist(bx)})' if b_given else 'None'
+                            qs = 'None' if sk in (OMIT, None) else f'(Some {cb(sk)})'
+                            qz = C.qlit(zx if z_given else Fr(0))
+                            add('func_get', f'f_get_opt {qlist2(pts)} {qtt(Aq)} {qa} {qb} {qz} {qs}',
+                                lambda: tn.func_get(Xarg, Af, **kw),
+                                desc + [dict(a=str(kw.get('a', 'omitted')), b=str(kw.get('b', 'omitted')),
+                                             z=str(kw.get('z', 'omitted')), skip_out='omitted' if sk is OMIT else str(sk),
+                                             single=single), [[str(v) for v in x] for x in pts]])
+        # dense evaluation: a, b positional; z, skip_out optional
+        P = opt_points(rng, ax, bx, 3)
+        Xf = np.array([fl(x) for x in P])
+        for z_given in (False, True):
+            for sk in (OMIT, True, False):
+                kw = {}
+                if z_given:
+                    kw['z'] = float(zx)
+                if sk is not OMIT:
+                    kw['skip_out'] = sk
+                add('func_get_full', f'f_get_full {qlist2(P)} {natl(ns)} {tl} {qlist(ax)} {qlist(bx)} '
+                    f'{C.qlit(zx if z_given else Fr(0))} {cb(True if sk is OMIT else sk)}',
+                    lambda: tn.func_get_full(Xf, Ad, fl(ax), fl(bx), **kw),
+                    desc + [dict(z=str(kw.get('z', 'omitted')), skip_out='omitted' if sk is OMIT else str(sk)),
+                            [[str(v) for v in x] for x in P]])
+        ms = [rng.choice([2, 3, 4]) for _ in range(d)]
+        for mform, margs in (('omitted', ()), ('None', (None,)), ('explicit', (ms,))):
+            for kform, kkw in (('omitted', {}), ('cheb', dict(kind='cheb'))):
+                add('func_gets', f'f_gets {qtt(Aq)} {optl(ms if mform == "explicit" else None)}',
+                    lambda: tn.func_gets(Af, *margs, **kkw), desc + [mform, kform, ms], 'tt')
+            mm = ms if mform == 'explicit' else ns
+            add('func_gets_full', f'f_gets_full {natl(ns)} {tl} {natl(mm)}',
+                lambda: tn.func_gets_full(Ad, fl(ax), fl(bx), *margs), desc + [mform, mm])
+    return approx_corr(R, 'option_interactions', HEADER_Q, items, q_vals, 1e-10, 12, dist)
+
+
+def general_boxes(rng, d, k_rand=4):
+    """(name, a, b) with double bounds: decimal (non-dyadic) asymmetric, negative, positive, symmetric non-dyadic,
+    tiny and huge width, random"""
+    tenth = lambda lo, hi: rng.randint(lo, hi) / 10.0   # noqa: E731
+    out = []
+    for name in ['decimal', 'decimal', 'decimal']:
+        a = [tenth(-9, 9) for _ in range(d)]
+        out.append((name, a, [ak + tenth(1, 15) for ak in a]))
+    out.append(('decimal_fixed', ([0.1, -0.1, 0.2, 0.1] * d)[:d], ([0.7, 0.3, 1.4, 0.9] * d)[:d]))
+    a = [-tenth(20, 90) for _ in range(d)]
+    out.append(('negative', a, [ak + tenth(1, 15) for ak in a]))
+    a = [tenth(11, 90) for _ in range(d)]
+    out.append(('positive', a, [ak + tenth(1, 30) for ak in a]))
+    h = [tenth(1, 37) for _ in range(d)]
+    out.append(('symmetric_decimal', [-v for v in h], h))
+    a = [tenth(-9, 9) for _ in range(d)]
+    out.append(('tiny_width', a, [ak + 1e-4 * tenth(1, 9) for ak in a]))
+    a = [-1e9 * tenth(1, 9) + 0.1 for _ in range(d)]
+    out.append(('huge_width', a, [2.3e10 * tenth(1, 9) for _ in range(d)]))
+    for _ in range(k_rand):
+        a = [rng.uniform(-3, 3) for _ in range(d)]
+        out.append(('random', a, [ak + rng.uniform(0.01, 4) for ak in a]))
+    return out
+
+
+def box_points(tn, rng, a, b, ns):
+    """(label, point): inside, each face exactly, corners, and the Chebyshev nodes of the box as teneva computes them"""
+    d = len(a)
+    ins = lambda: [ak + (bk - ak) * rng.random() for ak, bk in zip(a, b)]   # noqa: E731
+    P = [('in', ins()), ('in', ins()), ('corner_b', list(b)), ('corner_a', list(a))]
+    for k in range(d):
+        for side, bound in (('a', a[k]), ('b', b[k])):
+            x = ins()
+            x[k] = bound
+            P.append((f'face_{side}{k}', x))
+    I = np.array(list(itertools.islice(itertools.product(*[range(n) for n in ns]), 40)))
+    Xn = tn.ind_to_poi(I, np.array(a), np.array(b), np.array(ns), 'cheb')
+    for i, x in zip(I, Xn):
+        P.append(('node' + ''.join(str(v) for v in i), [float(v) for v in x]))
+    x = ins()
+    k = rng.randrange(d)
+    x[k] = b[k] + (b[k] - a[k]) * 0.5
+    P.append(('out', x))
+    return P
+
+
+def corr_boxes(R, tn, rng, th):
+    """every routine that takes a, b on general boxes (bounds that are not dyadic: 0.1, 0.7, -0.1, 0.3 ..., asymmetric,
+    negative, symmetric, tiny / huge width, random doubles); points on the faces and on the grid nodes.  The model works on
+    the exact rational values of the doubles; func_gets_full ignores a, b in the model as in the code."""
+    items = []
+    dist = dict(kinds={}, boxes={}, note='Qc instance on the exact rationals of the doubles passed; z = -29/4')
+    z = Fr(-29, 4)
+
+    def add(kind, name, coq, thunk, inp, floor=1.0):
+        dist['kinds'][kind] = dist['kinds'].get(kind, 0) + 1
+        dist['boxes'][name] = dist['boxes'].get(name, 0) + 1
+        items.append(dict(coq=coq, impl=impl_flat(thunk), input=[kind, name] + inp, floor=floor))
+
+    for rep in range(3 if th else 1):
+        d = [2, 1, 3][rep % 3]
+        ns = [rng.choice([2, 3, 4]) for _ in range(d)]
+        Aq = rand_tt(rng, ns, 2)
+        Af = tt_float(Aq)
+        Ad = np.array(dense_of(Aq).tolist(), dtype=float).reshape(ns)
+        tl = tens_lit(dense_of(Aq), C.qlit)
+        for name, a, b in general_boxes(rng, d):
+            P = box_points(tn, rng, a, b, ns)
+            X = [x for _, x in P]
+            Xq = [[Fr(v) for v in x] for x in X]
+            qa, qb = qlist(a), qlist(b)
+            inp = [ns, [G.tolist() for G in Aq], [v.hex() for v in a], [v.hex() for v in b]]
+            pin = inp + [[[v.hex() for v in x] for x in X], [lab for lab, _ in P]]
+            add('func_get', name, f'f_get {qlist2(Xq)} {qtt(Aq)} {qa} {qb} {C.qlit(z)} true',
+                lambda: tn.func_get(np.array(X), Af, a, b, z=float(z)), pin)
+            add('func_get_full', name, f'f_get_full {qlist2(Xq)} {natl(ns)} {tl} {qa} {qb} {C.qlit(z)} true',
+                lambda: tn.func_get_full(np.array(X), Ad, a, b, z=float(z)), pin)
+            vol = float(np.prod([(bk - ak) / 2 for ak, bk in zip(a, b)]))
+            add('func_sum', name, f'f_sum {qtt(Aq)} {qa} {qb}', lambda: tn.func_sum(Af, a, b), inp, vol)
+            ms = [rng.choice([2, 3, 4]) for _ in range(d)]
+            for mm, margs in ((ms, (ms,)), (ns, ())):
+                add('func_gets_full', name, f'f_gets_full {natl(ns)} {tl} {natl(mm)}',
+                    lambda: tn.func_gets_full(Ad, a, b, *margs), inp + [mm])
+            if name == 'symmetric_decimal':
+                add('func_sum_full', name, f'f_sum_full {natl(ns)} {tl} {qa} {qb}', lambda: tn.func_sum_full(Ad, a, b), inp, vol)
+    return approx_corr(R, 'general_boxes', HEADER_Q, items, q_vals, 1e-9, 6, dist)
+
+
+
 def _same(u, v):
     if isinstance(u, list):
         return isinstance(v, list) and len(u) == len(v) and all(_same(x, y) for x, y in zip(u, v))
@@ -1323,6 +1526,8 @@ def chk_forms(tn, case):
 def s_tt_coef(case):
     """coefficient TT-tensor (one rank per product term) of the polynomial of the case"""
     d, ns, Rk = case['d'], case['ns'], len(case['coefs'])
+    if d == 1:
+        return [np.sum([np.array(case['coefs'][al][0], dtype=float) for al in range(Rk)], axis=0).reshape(1, ns[0], 1)]
     Y = []
     for k in range(d):
         r1, r2 = (1 if k == 0 else Rk), (1 if k == d - 1 else Rk)
@@ -1585,8 +1790,120 @@ def chk_scales(tn, case):
     return fails
 
 
+def chk_options(tn, case):
+    """func_get with every combination of explicit / omitted a, b, z, skip_out (batch and single point) and
+    func_get_full with optional z, skip_out: explicit flags are honoured, defaults are a = -1, b = 1, z = 0,
+    skip_out = (both bounds given) for func_get and True for func_get_full"""
+    fails = []
+    d = case['d']
+    Af, Ad = s_tt_coef(case), s_coef(case)
+    ax, bx, zx = case['ax'], case['bx'], case['zx']
+    for a_given in (False, True):
+        for b_given in (False, True):
+            ae = ax if a_given else [-1.0] * d
+            be = bx if b_given else [1.0] * d
+            bc = dict(case, a=ae, b=be)
+            X = np.array([[ak + (bk - ak) * f for ak, bk, f in zip(ae, be, row)] for row in case['fr']])
+            for z_given in (False, True):
+                for sk in ('omit', None, True, False):
+                    kw = {}
+                    if a_given:
+                        kw['a'] = list(ax)
+                    if b_given:
+                        kw['b'] = list(bx)
+                    if z_given:
+                        kw['z'] = zx
+                    if sk != 'omit':
+                        kw['skip_out'] = sk
+                    skip_eff = sk if sk in (True, False) else (a_given and b_given)
+                    zz = zx if z_given else 0.0
+                    exp = s_ref_get(bc, X, zz) if skip_eff else np.array([s_poly(bc, [min(max(v, p), q) for v, p, q in zip(x, ae, be)]) for x in X])
+                    tag = 'func_get(' + ', '.join(f'{k}={"..." if k in "ab" else v}' for k, v in kw.items()) + ')'
+                    for single in (False, True):
+                        try:
+                            v = [tn.func_get(x.tolist(), Af, **kw) for x in X] if single else tn.func_get(X, Af, **kw)
+                        except Exception as ex:  # noqa
+                            fails.append(dict(what=f'{tag} raised {type(ex).__name__}: {str(ex)[:100]}', input=case))
+                            continue
+                        f = s_cmp(f'{tag}{" [single points]" if single else ""}: wrong values (effective box '
+                                  f'{"given" if a_given else "default"} a / {"given" if b_given else "default"} b; points '
+                                  f'outside must get z = {zz} iff skip_out is in force = {skip_eff})', case, v, exp)
+                        if f:
+                            f['input'] = dict(case, X=X.tolist(), kwargs={k: (v if k not in 'ab' else list(v)) for k, v in kw.items()})
+                            fails.append(f)
+    if d <= 3:
+        bc = dict(case, a=ax, b=bx)
+        X = np.array([[ak + (bk - ak) * f for ak, bk, f in zip(ax, bx, row)] for row in case['fr']])
+        for z_given in (False, True):
+            for sk in ('omit', True, False):
+                kw = {}
+                if z_given:
+                    kw['z'] = zx
+                if sk != 'omit':
+                    kw['skip_out'] = sk
+                zz = zx if z_given else 0.0
+                exp = s_ref_get(bc, X, zz) if sk in ('omit', True) else np.array([s_poly(bc, [min(max(v, p), q) for v, p, q in zip(x, ax, bx)]) for x in X])
+                try:
+                    v = tn.func_get_full(X, Ad, ax, bx, **kw)
+                    fails.append(s_cmp(f'func_get_full(a, b, {kw}): wrong values', case, v, exp))
+                except Exception as ex:  # noqa
+                    fails.append(dict(what=f'func_get_full(a, b, {kw}) raised {type(ex).__name__}: {str(ex)[:100]}', input=case))
+    return [f for f in fails if f]
+
+
+def chk_gboxes(tn, case):
+    """general boxes (non-dyadic, asymmetric, negative, tiny / huge width): every routine taking a, b; points on the faces
+    and on the grid nodes; re-sampling TT vs dense; inversion on the same grid"""
+    fails = []
+    d, ns, ms = case['d'], case['ns'], case['ms']
+    Y = s_tt(dict(case, a=[-1.0] * d, b=[1.0] * d))        # values on the grid (box independent in scaled coordinates)
+    A = tn.func_int(Y)
+    Yd = s_dense(Y) if d > 1 else Y[0][0, :, 0]
+    Ad = tn.func_int_full(Yd) if d <= 3 else None
+    z = -7.25
+    gexp = s_poly_unit_grid(case, ms)
+    for name, a, b in case['boxes']:
+        bc = dict(case, a=a, b=b, box=name)
+        I = np.array(list(itertools.islice(itertools.product(*[range(n) for n in ns]), 60)))
+        Xn = tn.ind_to_poi(I, np.array(a), np.array(b), np.array(ns), 'cheb')
+        rs = np.random.RandomState(case['seed'])
+        Xr = np.array(a) + (np.array(b) - np.array(a)) * rs.uniform(size=(4, d))
+        Xf = []
+        for k in range(d):
+            for bound in (a[k], b[k]):
+                x = Xr[rs.randint(4)].copy()
+                x[k] = bound
+                Xf.append(x)
+        X = np.vstack([Xr, np.array(Xf), np.array([a, b]), Xn])
+        exp = s_ref_get(bc, X, z)
+
+        def run(what, f, e, tol=STOL):
+            try:
+                v = f()
+            except Exception as ex:  # noqa
+                fails.append(dict(what=f'{what} on the box {name} raised {type(ex).__name__}: {str(ex)[:100]}', input=bc))
+                return None
+            fails.append(s_cmp(f'{what} wrong on the box {name} [{a}, {b}]', bc, v, e, tol))
+            return np.asarray(v, dtype=float)
+        g1 = run('func_get (inside / faces / corners / grid nodes)', lambda: tn.func_get(X, A, a, b, z=z), exp)
+        vol = float(np.prod([abs(bk - ak) / 2 for ak, bk in zip(a, b)]))
+        run('func_sum', lambda: [tn.func_sum(A, a, b)], [s_integral(bc)], STOL * max(1.0, vol))
+        Zt = run('func_gets (new grid)', lambda: s_dense(tn.func_gets(A, ms)) if d > 1 else tn.func_gets(A, ms)[0][0, :, 0], gexp)
+        if Ad is not None:
+            g2 = run('func_get_full (inside / faces / corners / grid nodes)', lambda: tn.func_get_full(X, Ad, a, b, z=z), exp)
+            if g1 is not None and g2 is not None:
+                fails.append(s_cmp(f'func_get and func_get_full disagree on the box {name}', bc, g1, g2))
+            Zd = run('func_gets_full(A, a, b, m) (new grid)', lambda: tn.func_gets_full(Ad, a, b, ms), gexp)
+            run('func_gets_full(A, a, b) (same grid: must invert func_int_full)', lambda: tn.func_gets_full(Ad, a, b), Yd)
+            if Zt is not None and Zd is not None:
+                fails.append(s_cmp(f'func_gets and func_gets_full disagree on the box {name}', bc, Zd, Zt))
+            if all(ak == -bk for ak, bk in zip(a, b)):
+                run('func_sum_full', lambda: [tn.func_sum_full(Ad, a, b)], [s_integral(bc)], STOL * max(1.0, vol))
+    return [f for f in fails if f]
+
+
 S_CHECKS = dict(poly=chk_poly, diff=chk_diff, linear=chk_linear, general=chk_general, forms=chk_forms,
-                edges=chk_edges, history=chk_history, scales=chk_scales)
+                edges=chk_edges, history=chk_history, scales=chk_scales, options=chk_options, gboxes=chk_gboxes)
 
 
 def s_cases(rng, deep):
@@ -1637,6 +1954,29 @@ def s_cases(rng, deep):
             c['Xhex'] = [[float(v).hex() for v in x] for _, x in P]
             c['z'] = -7.25
             cases.append(('edges', c))
+    # option interactions and general boxes
+    for rep in range(4 if deep else 2):
+        d = [2, 3, 1, 4][rep % 4]
+        ns = [rng.randint(2, 5) for _ in range(d)]
+        c = s_case(rng, d, ns, rng.randint(1, 2), 'unit')
+        c['ax'] = [-rng.choice([0.5, 1.5, 2.0, 0.7]) for _ in range(d)]
+        c['bx'] = [rng.choice([0.5, 1.0, 2.5, 0.9]) for _ in range(d)]
+        c['zx'] = rng.choice([-3.5, 4.5, 7.0])
+        fr = [[rng.choice([0.125, 0.5, 0.625, 0.875]) for _ in range(d)] for _ in range(2)] + [[1.0] * d, [0.0] + [0.5] * (d - 1)]
+        for f in (1.25, -0.5, 3.0):
+            row = [rng.choice([0.25, 0.75]) for _ in range(d)]
+            row[rng.randrange(d)] = f
+            fr.append(row)
+        c['fr'] = fr
+        cases.append(('options', c))
+    for rep in range(4 if deep else 2):
+        d = [2, 1, 3, 4][rep % 4]
+        ns = [rng.randint(2, 7 if d <= 2 else 4) for _ in range(d)]
+        c = s_case(rng, d, ns, rng.randint(1, 2), 'unit')
+        c['ms'] = [rng.randint(2, 6 if d <= 3 else 3) for _ in range(d)]
+        c['boxes'] = general_boxes(rng, d, 6 if deep else 4)
+        c['seed'] = rng.randrange(10 ** 6)
+        cases.append(('gboxes', c))
     # histories: the same argument objects across interleaved calls
     for rep in range(6 if deep else 2):
         d = [2, 3, 4, 2, 3, 2][rep % 6]
